@@ -1,6 +1,6 @@
 (* Executable glue for the C17 correspondence: character codes <-> ch, token encoding. *)
 From Coq Require Import List Arith Bool.
-From HT Require Import Model_Geqdsk.
+From HT Require Import Model_Geqdsk Model_GeqdskHeader.
 Import ListNotations.
 
 Definition decode1 (n : nat) : ch :=
@@ -33,3 +33,12 @@ Definition check_body (g : gdata) (expected : list nat) : bool := list_eqb (enco
 Definition ntrue (l : list bool) : nat := length (filter (fun b => b) l).
 Fixpoint falses (i : nat) (l : list bool) : list nat :=
   match l with [] => [] | b :: t => (if b then [] else [i]) ++ falses (S i) t end.
+
+(* header: the model's text for the given fields = the writer's first line; the model reader on the writer's first line = the sizes *)
+Definition check_header (label date shot time : list nat) (nx ny : nat) (expected : list nat) : bool :=
+  list_eqb (encode (header (decode label) (decode date) (decode shot) (decode time) nx ny)) expected.
+Definition check_read_header (line : list nat) (nx ny : nat) : bool :=
+  match read_header (decode line) with
+  | Some (a, b) => list_eqb a (nat_digits nx) && list_eqb b (nat_digits ny)
+  | None => false
+  end.
